@@ -114,6 +114,15 @@ def cases(draw, tier):
                         multi_body_multipart="KF-C03-04" not in _live, multi_body_array="KF-C03-05" not in _live,
                         multipart_models=True, media_spellings=True)
     ir = draw(docs.doc_ir(prof))
+    if draw(st.integers(0, 7)) == 0 and not any(n == "ZzFlat" for n, _ in ir["schemas"]):
+        # one model offered under two request media types (JSON and form, either order): whichever the generated function picks,
+        # encoding and Content-Type must belong to the same declared media type
+        ir["schemas"].append(["ZzFlat", {"k": "object", "props": [["alpha", {"k": "str"}, True], ["beta", {"k": "str"}, False]], "addl": False, "allOf": []}])
+        pair = [["application/json", {"k": "ref", "name": "ZzFlat"}], ["application/x-www-form-urlencoded", {"k": "ref", "name": "ZzFlat"}]]
+        if draw(st.booleans()):
+            pair.reverse()
+        ir["ops"].append({"path": "/zzboth", "method": "post", "opid": "zzSendBoth", "tags": [], "summary": "", "security": False, "params": [],
+                          "body": {"required": True, "content": pair, "same_model": True}, "responses": [[200, None]]})
     comps = docs.comp_map(ir)
     # an operation-level parameter shadowing a path-item-level one of a different kind
     for op in ir["ops"]:
@@ -320,7 +329,10 @@ def _body_object(pkg, fn, op, body, comps):
         classes = [c for c in cands if hasattr(c, "from_dict")]
         model_positions = [i for i, (m, s2) in enumerate(op["body"]["content"])
                            if _resolve(s2, comps).get("k") == "object"]
-        cls = classes[model_positions.index(bi)] if bi in model_positions and len(classes) > model_positions.index(bi) else None
+        if op["body"].get("same_model") and classes:
+            cls = classes[0]
+        else:
+            cls = classes[model_positions.index(bi)] if bi in model_positions and len(classes) > model_positions.index(bi) else None
         if cls is None:
             raise behave_missing("body class")
         return cls.from_dict(plain)
@@ -442,7 +454,26 @@ def check_request(ctx, req, op, call, comps, secured, auth, site_base):
         if hm.get(hname.lower(), [None])[0] != hval:
             V("request.auth_header", {"secured": secured}, f"want {hname}: {hval}, got {hm.get(hname.lower())}")
     # --- body
-    if call.get("body") is not None:
+    if call.get("body") is not None and op["body"].get("same_model"):
+        # the caller cannot say which of the two media types is meant: the request must be a consistent instance of one of them
+        _bi, val = call["body"]
+        ct = hm.get("content-type", [""])[0]
+        as_json = as_form = None
+        try:
+            as_json = json.loads(req["content"])
+        except ValueError:
+            pass
+        try:
+            as_form = dict(urllib.parse.parse_qsl(req["content"].decode("utf-8"), keep_blank_values=True, strict_parsing=True))
+        except (ValueError, UnicodeDecodeError):
+            pass
+        ok_json = ct == "application/json" and as_json is not None and instances.json_eq(as_json, val)
+        ok_form = ct == "application/x-www-form-urlencoded" and as_form is not None and as_form == {k: str(v) for k, v in val.items()}
+        ctx.label("one_model_two_media_types")
+        if not (ok_json or ok_form):
+            V("request.body_matches_one_declared_media_type", {"media": "json+form", "one_model_two_media_types": True},
+              f"Content-Type {ct!r} with body {req['content'][:120]!r} for {val!r}")
+    elif call.get("body") is not None:
         bi, val = call["body"]
         mt, bs = op["body"]["content"][bi]
         kind = media_kind(mt)
